@@ -95,7 +95,7 @@ template <int F> void flavour_case(Rng& rng, std::uint64_t idx)
 
 } // namespace
 
-std::uint64_t vfh_num_cases(bool thorough) { return thorough ? 900 : 100; }
+std::uint64_t vfh_num_cases(bool thorough) { return thorough ? 2400 : 100; }
 
 void vfh_run_case(std::uint64_t idx, Rng& rng)
 {
